@@ -523,7 +523,10 @@ class TGen:
             if r.random() < 0.3:
                 b1 = self.boolean(v, vt, 0)
                 if b1 is not None:
-                    return f"(-({b1}))", int
+                    # (~True is -2: a number, like -True)
+                    return f"({r.choice(['-', '~', '+'])}({b1}))", int
+            if t is int and r.random() < 0.3:
+                return f"(~{text})", int
             text = f"({r.choice(['-', '+'])}{text})"
         if d > 0 and r.random() < 0.5:
             o = self.scalar(v, vt, d - 1)
@@ -716,6 +719,31 @@ def shard_main(ctx):
             return a
 
     if ctx.shard in (0, 3):
+        # a default value of a nested stage lambda is written OUTSIDE it: its own item parameter, named like the enclosing one, means
+        # nothing there - the type of the default is what the enclosing variable gives
+        for text, want in (("lambda e: e.jets().Select(lambda e, *, m=e.met(): m)", typing.Iterable[float]),
+                           ("lambda e: e.jets().Select(lambda e, *, v=e.vtx(): v)", typing.Iterable[NS["Vtx"]]),
+                           ("lambda e: e.jets().Select(lambda e, *, n=e.jets().Count(): e.pt() / n)", typing.Iterable[float]),
+                           ("lambda e: e.jets().Select(lambda j: ~j.tagged())", typing.Iterable[int]),
+                           ("lambda e: e.jets().Select(lambda j: ~j.ntrk() + 1)", typing.Iterable[int])):
+            ctx.case("directed-type:" + text, True)
+            ctx.count("directed-type-cases")
+            try:
+                got = DS(NS["Event"]).Select(text).item_type
+            except Exception as e:
+                ctx.violation(f"exc:{type(e).__name__}:directed-type", f"{text}: {type(e).__name__}: {str(e)[:160]}", {"text": text})
+                continue
+            if not same_type(got, want):
+                ctx.violation("wrong-type:directed", f"Select({text}) on a stream of Event: got {got}, annotations imply {want}", {"text": text})
+        for text in ("lambda e: e.jets().Where(lambda j: ~j.tagged()).Count()", "lambda e: e.jets().Where(lambda j: -j.tagged()).Count()"):
+            ctx.case("where-nonbool-unary:" + text, True)
+            try:
+                DS(NS["Event"]).Select(text)
+                ctx.violation("non-boolean-Where-accepted:unary", f"{text}: ~True is the number -2; the Where was accepted", {"text": text})
+            except ValueError:
+                ctx.count("non-boolean-Where-refused")
+            except Exception as e:
+                ctx.violation(f"exc:{type(e).__name__}:where-unary", f"{text}: {type(e).__name__}: {str(e)[:160]}", {"text": text})
         # a filter that is no truth value is refused wherever the Where is written - also inside the DEFAULT value of a parameter of a
         # nested / stage lambda (followed since the defaults are followed at all)
         for text in ("lambda e: e.jets().Select(lambda j, *, n=e.jets().Where(lambda k: k.pt()).Count(): j.pt() / n)",
